@@ -431,6 +431,34 @@ func extractC14() *lean {
 		})
 	}
 	l.def("notifyNowUnrecoverable", "List String", leanStrList(unrec), unrec)
+	// of these, the ones outside the EventFatal branch wrap the notifier's own storage errors: they end a running loop
+	storageUnrec := 0
+	if fd := funcDecl(nf, "notifyNow"); fd != nil {
+		var walk func(n ast.Node, inFatal bool)
+		walk = func(n ast.Node, inFatal bool) {
+			ast.Inspect(n, func(m ast.Node) bool {
+				if m == nil || m == n {
+					return true
+				}
+				if is, ok := m.(*ast.IfStmt); ok {
+					walk(is.Body, inFatal || strings.Contains(c14Expr(is.Cond), "EventFatal"))
+					if is.Else != nil {
+						walk(is.Else, inFatal)
+					}
+					if is.Init != nil {
+						walk(is.Init, inFatal)
+					}
+					return false
+				}
+				if ce, ok := m.(*ast.CallExpr); ok && exprString(ce.Fun) == "retry.Unrecoverable" && !inFatal {
+					storageUnrec++
+				}
+				return true
+			})
+		}
+		walk(fd.Body, false)
+	}
+	l.def("storageFaultEndsLoop", "Bool", map[bool]string{true: "true", false: "false"}[storageUnrec > 0], storageUnrec)
 	// Save: "only schedule new events" - writeEvent only under errors.Is(err, stoabs.ErrKeyNotFound) of a read of the key
 	saveGuarded, saveWrites := 0, 0
 	if fd := funcDecl(nf, "Save"); fd != nil {
